@@ -72,6 +72,7 @@ class Sched:
         self.local = threading.local()
         self.choices: list = []  # record of (n_enabled, picked index, descr)
         self.describe = None     # optional: item -> dict of extra fields logged with queue events
+        self.before_step = None  # optional: callback(sched) run by the scheduler before every step (environment actions)
 
     # -- task side ---------------------------------------------------------
     def current(self) -> Task:
@@ -142,6 +143,8 @@ class Sched:
         """Run until all tasks are done.  Raises Deadlock."""
         try:
             while True:
+                if self.before_step is not None:
+                    self.before_step(self)
                 if all(t.done or t.killed for t in self.tasks.values()):
                     return
                 en = self.enabled()
@@ -340,6 +343,7 @@ class FakeProcess:
                 raise
 
         self.task = self.s.spawn(self.name, body, kind="proc")
+        self.task.owner = self
         self.s.emit(ev="spawn", proc=self.name)
         self.s.point(("spawned", self.name))
 
@@ -619,12 +623,37 @@ class MultiprocessingPatch:
         return None
 
 
-def run_main(fn, *, chooser=None, seed: int = 0, order_source=None, max_steps: int = 200000, describe=None):
+def kill_process_when(pred):
+    """Environment action for ``Sched.before_step``: SIGKILL (exit code -9, e.g. the
+    OOM killer) hits the first helper process for which ``pred(task)`` holds, once.
+    The process stops wherever it is: at the scheduling point it is waiting at."""
+    state = {"done": False}
+
+    def cb(sched):
+        if state["done"]:
+            return
+        for t in sched.tasks.values():
+            owner = getattr(t, "owner", None)
+            if owner is None or t.done or t.killed:
+                continue
+            if pred(t):
+                t.killed = True
+                owner.exitcode = -9
+                state["done"] = True
+                sched.emit(ev="oomkill", proc=t.name, p="env")
+                return
+
+    cb.state = state
+    return cb
+
+
+def run_main(fn, *, chooser=None, seed: int = 0, order_source=None, max_steps: int = 200000, describe=None, before_step=None):
     """Run ``fn`` as the main task under the fake multiprocessing runtime.
     Returns (sched, outcome) with outcome = ("ok", result) | ("raised", exc) |
     ("deadlock", waiting)."""
     s = Sched(chooser=chooser, seed=seed, max_steps=max_steps)
     s.describe = describe
+    s.before_step = before_step
     with MultiprocessingPatch(s, order_source):
         main = s.spawn("main", fn, kind="main")
         try:
